@@ -149,7 +149,117 @@ def typed_batches(chk, rng, root_dir, n):
     return fails
 
 
+def api_batches(chk, rng, n):
+    """the batch entry points as a caller uses them: default parameter values left unbound, a partial prefix, ignore_result,
+    context arguments, and batches issued from inside another memento function (also with further calls prevented) — each
+    against the same individual calls in a second fresh store"""
+    import twosigma.memento as m
+    from twosigma.memento import Environment, ConfigurationRepository, FunctionCluster
+    from twosigma.memento.storage_memory import MemoryStorageBackend
+    import c15fns
+    fails = []
+    orig = m.Environment.get()
+    child = c15fns.child
+
+    def fresh():
+        m.Environment.set(Environment(name="c15a", repos=[ConfigurationRepository(name="r", clusters={
+            "cp": FunctionCluster(name="cp", storage=MemoryStorageBackend())})]))
+        c15fns.EXECS.clear()
+
+    def show(r):
+        return ("exc:" + type(r).__name__) if isinstance(r, BaseException) else r
+
+    def single(fn, kw):
+        try:
+            return show(fn(**kw))
+        except Exception as e:
+            return show(e)
+
+    def stored(fn, kws):
+        return [fn.memento(**kw) is not None for kw in kws]
+
+    def invs(mm):
+        return None if mm is None else sorted(
+            (i.fn_reference.function_name, repr(sorted(i.effective_kwargs.items())), repr(sorted((i.context_args or {}).items())))
+            for i in mm.invocation_metadata.invocations)
+    try:
+        for it in range(n):
+            mode = ["defaults-batch", "defaults-map", "prefix-map", "kw-prefix-map", "ignore-result", "context", "nested", "nested-prevented", "nested-context"][it % 9]
+            xs = [rng.choice([0, 1, 2, 3, 4, 10]) for _ in range(rng.randint(0, 5))]
+            pre = sorted({x for x in xs if rng.random() < [0.0, 0.5, 1.0][it // 9 % 3]})
+            rf = rng.random() < 0.3
+            out = {}
+            for side in ("batch", "single"):
+                fresh()
+                ctx = {"k": 1} if mode in ("context", "nested-context") else None
+                base = child.with_context_args(ctx) if ctx else child
+                for x in pre:
+                    single(base, {"x": x})
+                n_pre = len(c15fns.EXECS)
+                if mode in ("defaults-batch", "context", "ignore-result"):
+                    fn = base.ignore_result() if mode == "ignore-result" else base
+                    kws = [{"x": x} for x in xs]
+                    if side == "batch":
+                        try:
+                            rs = [show(r) for r in fn.call_batch(kws, raise_first_exception=rf)]
+                        except Exception as e:
+                            rs = "raised " + show(e)
+                    else:
+                        rs = [single(fn, kw) for kw in kws]
+                        first = next((r for r in rs if isinstance(r, str) and r.startswith("exc:")), None)
+                        if rf and first:
+                            rs = "raised " + first
+                    out[side] = (rs, stored(base, kws))
+                elif mode in ("defaults-map", "prefix-map", "kw-prefix-map"):
+                    ux = list(dict.fromkeys(xs))
+                    if mode == "defaults-map":
+                        fn, par, kws = base, "x", [{"x": x} for x in ux]
+                    elif mode == "prefix-map":
+                        fn, par, kws = base.partial(2), "factor", [{"x": 2, "factor": x} for x in ux]
+                    else:
+                        fn, par, kws = base.partial(factor=3), "x", [{"x": x, "factor": 3} for x in ux]
+                    if side == "batch":
+                        try:
+                            d = fn.map_over_range(**{par: list(ux)})
+                            rs = [show(d.get(x, "missing")) for x in ux]
+                        except Exception as e:
+                            rs = "raised " + show(e)
+                    else:
+                        rs = [single(fn, {par: x}) for x in ux]
+                        first = next((r for r in rs if isinstance(r, str) and r.startswith("exc:")), None)
+                        if first:
+                            rs = "raised " + first
+                    out[side] = (rs, stored(base, kws))
+                else:
+                    caller = c15fns.caller_batch if side == "batch" else c15fns.caller_single
+                    bound = caller
+                    if mode == "nested-prevented":
+                        bound = caller.with_prevent_further_calls(True)
+                    elif mode == "nested-context":
+                        bound = caller.with_context_args(ctx)
+                    rs = single(bound, {"xs": list(xs), "tag": it})
+                    mm = (caller.with_context_args(ctx) if ctx else caller).memento(xs=list(xs), tag=it)
+                    out[side] = (rs, stored(base, [{"x": x} for x in xs]), invs(mm))
+                ex = c15fns.EXECS[n_pre:]
+                out[side + "-execs"] = sorted(set(ex)) if len(set(ex)) == len(ex) else "twice: %r" % (ex,)
+            chk.case(["api-batch", mode, xs, pre, rf], nontrivial=len(xs) >= 2, sample=dict(kind="api batch", mode=mode, elements=xs, pre=pre, results=repr(out["batch"][0])[:120]))
+            chk.count("api-batch:" + mode)
+            if out["batch"][0] != out["single"][0]:
+                fails.append(dict(clause="position-by-position", mode=mode, elements=xs, pre=pre, raise_first=rf, batch=repr(out["batch"][0]), individual=repr(out["single"][0])))
+            elif out["batch"][1:] != out["single"][1:]:
+                fails.append(dict(clause="same-final-store", mode=mode, elements=xs, pre=pre, batch=repr(out["batch"][1:]), individual=repr(out["single"][1:])))
+            elif isinstance(out["batch-execs"], str):
+                fails.append(dict(clause="element-runs-at-most-once", mode=mode, elements=xs, pre=pre, executions=out["batch-execs"]))
+    finally:
+        m.Environment.set(orig)
+    return fails
+
+
 def main(chk, replay=None):
+    if replay is not None and "program" not in replay:
+        # (api / typed batches: self-contained records)
+        print(json.dumps(dict(note="self-contained record: see 'observed' (mode, elements, pre-memoized subset)", still_fails=None)))
+        return 0
     if replay is not None:
         r = trial(replay["program"], replay["backend"], replay["pre"], replay["f"], replay["args"], replay["ctx"], replay["rf"],
                   replay["use_map"], False, None, replay.get("warm"))
@@ -158,7 +268,7 @@ def main(chk, replay=None):
     chk.rule = ("generated programs; batches of length 0..6 over arguments {0..3} with duplicates and failing elements x subsets "
                 "of the elements memoized beforehand (quick: random; thorough: all subsets of the distinct elements) x "
                 "raise_first_exception x context x {call_batch, map_over_range on duplicate-free ranges} x backends x {same session, "
-                "store re-opened in a new session with a subset cached again}. "
+                "store re-opened in a new session with a subset cached again}; plus the entry points as a caller uses them (defaults unbound, partial prefixes, ignore_result, context arguments, batches inside another memento function incl. prevented). "
                 "Distinct = distinct trial; non-trivial = batch has >= 2 elements.")
     proof_ok = chk.build_and_audit()
     quick = chk.tier == "quick"
@@ -168,6 +278,9 @@ def main(chk, replay=None):
     for fl in typed_batches(chk, rng, chk.tmpdir(), 30 if quick else 600)[:3]:
         chk.violation({"what": "typed batch differs from element-wise evaluation: %s" % fl["clause"],
                        "class": {"clause": fl["clause"], "stream": "typed-batch"}, "observed": fl})
+    for fl in api_batches(chk, rng, 54 if quick else 900)[:3]:
+        chk.violation({"what": "batch entry point (%s) differs from element-wise evaluation: %s" % (fl["mode"], fl["clause"]),
+                       "class": {"clause": fl["clause"], "stream": "api-batch", "mode": fl["mode"]}, "observed": fl})
     # one large batch (more than a thousand distinct elements, the last ones failing), oracle only
     big = dict(fns={1: dict(explicit=False, stmts=[], const=1, **{"raise": [1009, 1005, 0, 6]})})
     for rf_ in (False, True):
